@@ -4,6 +4,7 @@
    and raises.  The theorems hold for every outcome, every partition count, every position. *)
 From Coq Require Import List ZArith Bool Lia.
 From GB Require Import Model.Batcher Model.Lease Proofs.Tactics Proofs.LeaseProofs.
+From GB Require Import Gen.Facts.
 Import ListNotations.
 Open Scope Z_scope.
 
@@ -62,4 +63,7 @@ Example C18_nonvacuous :
     = (false, [0; 1; 2]%nat, [LCreatedBlob 0; LVerifiedBlob 1])
   /\ lm_create V2 (fun k => match k with 0%nat => EOk | 1%nat => ELeaseIdMissing | 2%nat => ENonStorage | _ => EOk end) 4
     = (true, [0; 1; 2; 3]%nat, [LCreatedBlob 0; LVerifiedBlob 1; LError; LCreatedBlob 3]).
+Proof. split; reflexivity. Qed.
+
+Theorem C18_source_constants : V1_lease_seconds * 1000000000 = lease_ns /\ V2_lease_seconds * 1000000000 = lease_ns.
 Proof. split; reflexivity. Qed.
